@@ -13,17 +13,18 @@ _checkers: dict[Any, Any] = {}
 _modcount = 0
 
 
-def get_checker(settings: Optional[Mapping[str, bool]] = None, *, fresh: bool = False):
+def get_checker(settings: Optional[Mapping[str, bool]] = None, *, fresh: bool = False,
+                options: Optional[Mapping[str, Any]] = None):
     """A Checker whose options enable/disable the named error codes as if given on the command line."""
     from pyanalyze.checker import Checker
     from pyanalyze.error_code import ErrorCode
     from pyanalyze.name_check_visitor import NameCheckVisitor
 
-    key = tuple(sorted((settings or {}).items()))
+    key = (tuple(sorted((settings or {}).items())), tuple(sorted((options or {}).items())))
     if not fresh and key in _checkers:
         return _checkers[key]
     st = {getattr(ErrorCode, k): v for k, v in (settings or {}).items()}
-    kwargs = NameCheckVisitor.prepare_constructor_kwargs({"settings": st})
+    kwargs = NameCheckVisitor.prepare_constructor_kwargs({"settings": st, **dict(options or {})})
     checker = kwargs["checker"]
     if not fresh:
         _checkers[key] = checker
